@@ -8,6 +8,9 @@
 //! * [`roundtrip_oracle`] – C02: repeated decodes of the same bytes give equal values with
 //!   identical encoding, id and signature validity; a valid header survives encode → decode.
 //!
+//! This file is self-contained (ciborium, ed25519-dalek, hex, serde, p2panda-core only) so that a
+//! fuzz crate can include it with `#[path]`.
+//!
 //! Fuzz-target usage: decode the input with the code under test first and hand
 //! `header.to_bytes()` to `reference_valid` (the statement speaks about the canonical bytes; the
 //! decoder is more liberal than the canonical form, e.g. it skips tags).
@@ -16,7 +19,16 @@ use ciborium::Value;
 use p2panda_core::cbor::decode_cbor;
 use p2panda_core::{Extensions, Hash, Header, validate_header};
 
-use crate::factory::ExtKind;
+/// Which extension type a header carries (needed to interpret header bytes).
+#[derive(Clone, Copy, Debug, PartialEq, Eq, serde::Serialize, serde::Deserialize)]
+pub enum ExtKind {
+    /// `()` – no extension element on the wire.
+    Unit,
+    /// A serde struct (CBOR map), e.g. `factory::CustomExt`.
+    Custom,
+    /// Node API extensions (CBOR array, Basic or Causal variant).
+    Node,
+}
 
 /// Structural reading of canonical header bytes, written from the specification.
 #[derive(Clone, Debug)]
